@@ -169,7 +169,7 @@ func RunTLC(o TLCOpts) (TLCResult, error) {
 		}
 		if strings.HasPrefix(l, "Error: Invariant ") && strings.Contains(l, "is violated") {
 			res.InvViolated = strings.TrimSuffix(strings.TrimPrefix(l, "Error: Invariant "), " is violated.")
-		} else if strings.HasPrefix(l, "Error: Action property") {
+		} else if strings.HasPrefix(l, "Error: Action property") || strings.HasPrefix(l, "Error: Temporal properties were violated") {
 			res.InvViolated = l
 		} else if strings.HasPrefix(l, "Error:") && res.Error == "" && res.InvViolated == "" {
 			res.Error = l
